@@ -110,6 +110,15 @@ func C01Scenario() *Scenario {
 		w.Stages = []Stage{
 			{Name: "converge", Policy: pol, Quiet: true, MaxSteps: 2500, Do: func(w *World) {}, OnBudget: func(w *World) *Violation { return c01Budget(w, cfg, opts) }},
 			{Name: "drain", Quiet: true, MaxSteps: 2500, Do: func(w *World) { b.Left = 0 }, OnBudget: func(w *World) *Violation { return c01Budget(w, cfg, opts) }},
+			// "repeatedly syncing ... reaches a state": one sync of every parent with current
+			// caches belongs to reaching it (it may still tidy up, e.g. a ControllerRevision
+			// that a sync working from a stale cache re-created); what follows is measured
+			{Name: "sync-once-more", Quiet: true, MaxSteps: 3000, OnBudget: func(w *World) *Violation { return c01Budget(w, cfg, opts) },
+				Do: func(w *World) {
+					for _, p := range parents {
+						EditObject(w, p.Res, p.NS, p.Name, "user", func(o Object) { setPath(o, "0", "metadata", "annotations", "poke") })
+					}
+				}},
 			{Name: "poke", Quiet: true, MaxSteps: 3000,
 				Do: func(w *World) {
 					pokeStep = w.step
